@@ -18,7 +18,7 @@ Driver for C02.  Request line (fields `k=v` separated by single spaces, values w
             | citem:k                                 -- XPathContext(root, item=<wrapped object of node k>).item
             | px:<i|s|r|q>:<focus>:<op>:<E1>:<E2>     -- operator with PATH operands evaluated at focus node `focus`
                  (form: item= / `$f/(…)` / `(//*)[k]/(…)` / predicate `$f[…]`; op: union bar inter except is prec foll
-                  inner outer root; E: path codes of EPV/Spec/XDMTree.lean `pathEval`)
+                  inner outer root comma; E: path codes of EPV/Spec/XDMTree.lean `pathEval`)
   lz=<i.j|_>/<i.j|_>  elements (indices) whose namespace nodes / attributes are built for the `lazy1` answer
 
 Answer:  model=<dump> spec=<dump> ops=<m/s;m/s;…|_> lazy0=<idxs> lazy1=<idxs> desc=<idxs>
@@ -223,6 +223,8 @@ def answerTreeOp (root : PNode) (nodes : List Rec) (items : List Item) (op : Str
           some (opAtFocus (fun a b => opInnermost nodes (a ++ b)) e1 e2 focus, specInnermost items (e1 focus ++ e2 focus))
         else if opn == "outer" then
           some (opAtFocus (fun a b => opOutermost nodes (a ++ b)) e1 e2 focus, specOutermost items (e1 focus ++ e2 focus))
+        else if opn == "comma" then
+          some (opAtFocus (fun a b => a ++ b) e1 e2 focus, e1 focus ++ e2 focus)   -- sequence concatenation
         else if opn == "root" then
           some (((single (e1 focus)).bind (opRoot nodes)).toList, ((single (e1 focus)).bind (specRoot n)).toList)
         else none
@@ -234,11 +236,21 @@ def answerTreeOp (root : PNode) (nodes : List Rec) (items : List Item) (op : Str
           else if opn == "foll" then some (opFollows nodes a b, some (specFollows a b))
           else none
         | _, _ => if opn == "is" || opn == "prec" || opn == "foll" then some (none, none) else none
+      -- a path step `$f/(E)` returns its node results without duplicates in document order (XPath 3.1 §3.3.1)
+      let step := form == "s" || form == "r"
       let wrapL (l : List Nat) : String := if form == "q" then (if l.isEmpty then "_" else toString focus) else showIdxs l
       let wrapB (b : Option Bool) : String :=
         if form == "q" then (if b == some true then toString focus else "_") else showOB b
+      let isCmp := opn == "is" || opn == "prec" || opn == "foll"
+      if isCmp && ((e1 focus).length > 1 || (e2 focus).length > 1) && (e1 focus).length > 0
+          && ((e2 focus).length > 0 || (e1 focus).length > 1) then
+        -- a node comparison needs single nodes: XPTY0004 (XPath 3.1 §3.7.2); the left operand is examined first
+        some "ERR:XPTY0004/ERR:XPTY0004"
+      else
       match setRes, boolRes with
-      | some (m, sp), _ => some s!"{wrapL m}/{wrapL sp}"
+      | some (m, sp), _ =>
+        if step then some s!"{wrapL (opUnion nodes m [])}/{wrapL (specUnion n sp [])}"
+        else some s!"{wrapL m}/{wrapL sp}"
       | none, some (m, sp) => some s!"{wrapB m}/{wrapB sp}"
       | none, none => some "bad"
   | ["ecmp", _, _, _] => some "-/-"      -- an empty operand: the comparison is the empty sequence
